@@ -17,13 +17,14 @@ Rec == ndJsonDeserialize(IOEnv.TRACE)
 N   == Len(Rec)
 
 VARIABLES l,
-          pcap     \* capacity (in blocks) of the working space before the call, as the previous snapshot reported it
-tvars == <<vars, l, pcap>>
+          pcap,    \* capacity (in blocks) of the working space before the call, as the previous snapshot reported it
+          pbm      \* decoder: length (bits) and address of the index bitmap before the call, from the previous snapshot
+tvars == <<vars, l, pcap, pbm>>
 
 Has(e, f) == f \in DOMAIN e
 
 TraceInit ==
-  /\ l = 1 /\ pcap = 0
+  /\ l = 1 /\ pcap = 0 /\ pbm = [bits |-> 0, ptr |-> ""]
   /\ kind = "none" /\ cfg = [k |-> 1, r |-> 1, sb |-> 2] /\ rate = "high"
   /\ added = <<>> /\ gotO = {} /\ gotR = {} /\ res = "none"
   /\ held = [blocks |-> 0, bits |-> 0]
@@ -91,6 +92,13 @@ AllocOK(e) ==
   (Has(e, "abytes") /\ NeedObs(e) <= pcap /\ cfg'.sb >= 1024) =>
      /\ (cfg'.sb >= HugeShard => (IF Has(e, "amax") THEN e.amax ELSE e.abytes) < cfg'.sb)   \* largest single allocation
      /\ (Has(e, "ptr_same") => e.ptr_same)
+\* C17, index bitmap ("the buffers are reused in place"; DecWork.tla: the bitmap is cleared and grown only when too
+\* short): a call after which both index ranges fit the bitmap the object held before the call leaves the bitmap's
+\* storage where it was
+BitmapOK(e) ==
+  (Role = "dec" /\ Has(e, "snap") /\ ~Has(e.snap, "missing") /\ Has(e.snap, "bptr") /\ pbm.ptr # "") =>
+     \A s \in {e.snap} :
+        (s.obase + s.k <= pbm.bits /\ s.rbase + s.r <= pbm.bits) => s.bptr = pbm.ptr
 CapacityOK(e) ==
   \* the held working space never shrinks below what the history needed
   Has(e, "abytes") => e.snap.cap >= held'.blocks
@@ -120,13 +128,13 @@ ProtoOK(e, dom) ==
 
 Step(e) ==
   CASE e.ev = "new"          -> NewObj(e.kind, e.k, e.r, e.sb) /\ RetOK(e) /\ SnapOK(e)
-    [] e.ev = "reset"        -> Reset(e.k, e.r, e.sb) /\ RetOK(e) /\ SnapOK(e) /\ AllocOK(e) /\ CapacityOK(e)
-    [] e.ev = "rehouse"      -> Rehouse(e.kind, e.k, e.r, e.sb) /\ RetOK(e) /\ SnapOK(e) /\ AllocOK(e) /\ CapacityOK(e)
+    [] e.ev = "reset"        -> Reset(e.k, e.r, e.sb) /\ RetOK(e) /\ SnapOK(e) /\ AllocOK(e) /\ CapacityOK(e) /\ BitmapOK(e)
+    [] e.ev = "rehouse"      -> Rehouse(e.kind, e.k, e.r, e.sb) /\ RetOK(e) /\ SnapOK(e) /\ AllocOK(e) /\ CapacityOK(e) /\ BitmapOK(e)
     [] e.ev = "add"          -> EncAdd(e.pay, e.len) /\ RetOK(e) /\ SnapOK(e) /\ AllocOK(e)
-    [] e.ev = "add_original" -> DecAdd("original", e.index, e.len) /\ RetOK(e) /\ SnapOK(e) /\ AllocOK(e)
-    [] e.ev = "add_recovery" -> DecAdd("recovery", e.index, e.len) /\ RetOK(e) /\ SnapOK(e) /\ AllocOK(e)
+    [] e.ev = "add_original" -> DecAdd("original", e.index, e.len) /\ RetOK(e) /\ SnapOK(e) /\ AllocOK(e) /\ BitmapOK(e)
+    [] e.ev = "add_recovery" -> DecAdd("recovery", e.index, e.len) /\ RetOK(e) /\ SnapOK(e) /\ AllocOK(e) /\ BitmapOK(e)
     [] e.ev = "encode"       -> Encode /\ RetOK(e) /\ SnapOK(e) /\ AllocOK(e)
-    [] e.ev = "decode"       -> Decode /\ RetOK(e) /\ SnapOK(e) /\ AllocOK(e)
+    [] e.ev = "decode"       -> Decode /\ RetOK(e) /\ SnapOK(e) /\ AllocOK(e) /\ BitmapOK(e)
     [] e.ev = "query"        -> /\ Query(e.index) /\ e.ret.some = last'.some /\ AllocOK(e)
                                 /\ (e.ret.some => OutOK(e, {e.index}))
     [] e.ev = "iter"         -> /\ IterAll /\ e.ret.count = Cardinality(last'.yields) /\ e.ret.again = 0
@@ -138,6 +146,8 @@ TraceNext == /\ l <= N
              /\ l' = l + 1
              /\ \E e \in {Rec[l]} : /\ e.role = Role /\ Step(e)
                                     /\ pcap' = IF e.ev = "drop" \/ ~Has(e, "snap") \/ Has(e.snap, "missing") \/ ~Has(e.snap, "cap") THEN pcap ELSE e.snap.cap
+                                    /\ pbm' = IF e.ev = "drop" \/ ~Has(e, "snap") \/ Has(e.snap, "missing") \/ ~Has(e.snap, "bptr") THEN pbm
+                                              ELSE [bits |-> e.snap.bits, ptr |-> e.snap.bptr]
 TraceSpec == TraceInit /\ [][TraceNext]_tvars
 
 \* the design invariants hold along every recorded history as well
